@@ -10,6 +10,7 @@ import (
 
 	"github.com/privacybydesign/gabi"
 	"github.com/privacybydesign/gabi/big"
+	"github.com/privacybydesign/gabi/gabikeys"
 
 	"verifharness/mon"
 	"verifharness/refimpl"
@@ -20,7 +21,7 @@ func init() {
 	Registry["C05"] = &Check{
 		Level: "exploration",
 		Rule: "cases = (key, message block of length 1..len(R) with boundary-sized entries) x (library signature | 10 chained randomisations | signature FORGED with the private key for a chosen exponent e: interval edges +-2, primes just inside/outside, small primes, " +
-			"short/long primes, composites with small factors inside the interval, even numbers | single-component alteration of A, e, v, each m_i, block truncated/extended/permuted, KeyshareP added/removed/altered, other public key); " +
+			"short/long primes, composites with small factors inside the interval, even numbers | single-component alteration of A, e, v, each m_i, block truncated/extended/permuted, KeyshareP added/removed/altered, other public key, the same modulus with another base / S / Z right after an honest verification under the genuine key); " +
 			"non-trivial = the signature satisfies the signature equation or is a one-component alteration of one that does; distinct by (key, block shape, operator, e class) hash; " +
 			"oracle = reference equivalence: CLSignature.Verify must equal inRange(e) && prime(e) && Z == A^e prod R_i^norm(m_i) S^v [KeyshareP] computed independently",
 		Run: runC05,
@@ -438,6 +439,30 @@ func c05Job(r *mon.Run, k *world.Key, n int, jr *rand.Rand) {
 			alt("other key "+other, func(s *gabi.CLSignature) ([]*big.Int, *world.Key) { return same(), ok })
 		}
 	}
+	// the same modulus with other bases / S / Z: a different public key although n is the same. The genuine signature is verified
+	// under the genuine key immediately before, so that anything remembered per modulus or per block is in place.
+	sameN := func(desc string, f func(p *gabikeys.PublicKey)) {
+		p2 := *pk
+		p2.R = make([]*big.Int, len(pk.R))
+		for i := range pk.R {
+			p2.R[i] = cp(pk.R[i])
+		}
+		p2.S, p2.Z, p2.N = cp(pk.S), cp(pk.Z), cp(pk.N)
+		f(&p2)
+		vk := &world.Key{Name: k.Name + "/" + desc, SK: k.SK, PK: &p2, Ord: k.Ord}
+		alt("same modulus, "+desc, func(s *gabi.CLSignature) ([]*big.Int, *world.Key) {
+			mon.Try(func() { sig.Verify(pk, same()) })
+			return same(), vk
+		})
+	}
+	mulS := func(x *big.Int) *big.Int { return new(big.Int).Mod(mul(x, pk.S), pk.N) }
+	sameN(fmt.Sprintf("R[%d]*S", n-1), func(p *gabikeys.PublicKey) { p.R[n-1] = mulS(p.R[n-1]) })
+	sameN("R[0]*S", func(p *gabikeys.PublicKey) { p.R[0] = mulS(p.R[0]) })
+	if n >= 2 {
+		sameN("R[0]<->R[1]", func(p *gabikeys.PublicKey) { p.R[0], p.R[1] = p.R[1], p.R[0] })
+	}
+	sameN("S squared", func(p *gabikeys.PublicKey) { p.S = new(big.Int).Mod(mul(p.S, p.S), p.N) })
+	sameN("Z*S", func(p *gabikeys.PublicKey) { p.Z = mulS(p.Z) })
 	// alterations of the keyshare-bound forged signature
 	if fk != nil {
 		s2 := &gabi.CLSignature{A: cp(fk.A), E: cp(fk.E), V: cp(fk.V)}
